@@ -122,7 +122,12 @@ def run_partition(job):
         if hasattr(mod, 'reset'):
             mod.reset(sx)
         try:
-            return fn(sx, **params)
+            out = fn(sx, **params)
+            if job.get('twin'):
+                # reachability twin: every path that gets to the end of the
+                # harness must be able to fail an obligation placed there
+                cx.check(False, "reachability-twin")
+            return out
         except core.SxAbort:
             raise
         except Exception as e:
@@ -226,6 +231,8 @@ def native_main():
         r = dict(outcome=None, failed=[], reached=[], error=None)
         try:
             val = fn(sx, **params)
+            if req.get('twin'):
+                sx.check(False, "reachability-twin")
             r['outcome'] = api.evaluate(val, None)
         except api.CheckFailed as e:
             r['failed'] = list(sx.failed)
@@ -241,10 +248,10 @@ def native_main():
     sys.stdout = real_stdout
 
 
-def native_run(module, fn, params, cases, timeout=600):
+def native_run(module, fn, params, cases, timeout=600, twin=False):
     """-> list of result dicts (shorter than cases if the child died or hung;
     the last element then has error set)."""
-    req = json.dumps(dict(module=module, fn=fn, params=params, cases=cases))
+    req = json.dumps(dict(module=module, fn=fn, params=params, cases=cases, twin=twin))
     env = dict(os.environ)
     env['PYTHONPATH'] = VERIF
     env.pop('PYTHONHASHSEED', None)
